@@ -1297,6 +1297,12 @@ class Machine:
                 cp = some(x) if is_some else none()
                 a0.variant, a0.fields, a0.name = 0, [], "None"
                 return cp
+            if end in ("get_or_insert", "get_or_insert_with", "insert") and len(a) == 2:
+                # (the option itself is changed in place; what is handed back is the value it now holds)
+                if end == "insert" or not is_some:
+                    v_ = a[1] if end != "get_or_insert_with" else self.call_value(a[1], [])
+                    a0.variant, a0.fields, a0.name = 1, [v_], "Some"
+                return a0.fields[0]
             if end == "replace":
                 cp = some(x) if is_some else none()
                 a0.variant, a0.fields, a0.name = 1, [a[1]], "Some"
@@ -2339,7 +2345,8 @@ class FnItem:
 
 
 OPTION_METHODS = {"transpose", "map", "and_then", "ok_or", "ok_or_else", "unwrap_or", "unwrap_or_else", "map_or", "map_or_else", "is_some",
-                  "is_none", "or", "or_else", "filter", "unwrap", "expect", "take", "replace", "unwrap_or_default", "zip", "xor"}
+                  "is_none", "or", "or_else", "filter", "unwrap", "expect", "take", "replace", "unwrap_or_default", "zip", "xor", "get_or_insert",
+                  "get_or_insert_with", "insert"}
 RESULT_METHODS = {"transpose", "map", "map_err", "and_then", "or_else", "ok", "err", "is_ok", "is_err", "unwrap_or", "unwrap_or_else", "unwrap",
                   "expect", "unwrap_or_default"}
 FLOAT_UNARY = ("floor", "ceil", "round", "trunc", "abs", "fract", "neg", "sqrt", "signum", "is_nan", "is_infinite", "is_finite",
